@@ -10,6 +10,9 @@ CHECKS = {
     "C01": ("exploration", "runtime monitoring: differential oracle (independent reference interpreter) + icontract postcondition + leaf flight-recorder",
             "Thousands of generated pipelines (all node kinds, every parameter placement, every failure kind at every index) are executed through the public API and compared with an independent reference interpreter of the documented semantics; an icontract postcondition on the real resolve_runtime_value checks precedence on every call. Held = no disagreement on the executions observed.",
             "Trusts vlib/refmodel.py as the statement of the documented semantics; component library is finite (repo examples + vlib.components).", "DESIGN.md §4 C01"),
+    "C03": ("exploration", "runtime monitoring: differential oracle (independent sweep expansion model) over leaf flight-recorder, output collection and published context",
+            "Thousands of generated sweep-centred pipelines (source/operation/probe x 1..3 variables x range/sequence/from_context x modes x broadcast x expressions x parameter placements) run through the public API; the leaf flight-recorder gives the kwargs the wrapped element really received at every step, compared step by step with an independent expansion model, together with the output collection / probe list and every <var>_values key. Held = no disagreement on the executions observed.",
+            "Trusts vlib/refmodel.py (own linspace/logspace, sorted-name Cartesian order, broadcast cycling). Two-number plain-list variable specs are not generated (doc/code disagree; property silent).", "DESIGN.md §4 C03"),
 }
 
 NOT_BUILT_REASON = "check not implemented yet in this round (work in progress; see DESIGN.md §4 for the planned monitor)"
